@@ -459,7 +459,7 @@ type item struct {
 
 var protoCountClasses = [][2]int{{0, 0}, {1, 10}, {1, 10}, {1, 10}, {1, 10}, {1, 10}, {11, 200}, {1000, 1023}, {1024, 1024}, {1025, 1025}, {1026, 1100}, {2000, 3000}}
 
-var chunkTargets = []int{1, 1, 1, 1, 1, 1, 2, 2, 2, 2, 3, 3, 4, 6, 8, 9, 9, 10, 11, 12}
+var chunkTargets = []int{1, 1, 1, 1, 1, 1, 1, 1, 2, 2, 2, 2, 2, 3, 3, 3, 4, 5, 6, 7, 8, 9, 9, 9, 10, 10, 11, 12}
 
 const chunkLimit = 7600 // bytes of payload put into one chunk before a new one is started
 
@@ -639,7 +639,7 @@ func (w *world) drawMsg(rt *rapid.T, src int, label string) *msgSpec {
 	}
 
 	// wire format
-	fault := rapid.IntRange(0, 19).Draw(rt, label+"-fault")
+	fault := rapid.IntRange(0, 39).Draw(rt, label+"-fault")
 	var wire []byte
 	for i, c := range chunks {
 		b, err := proto.Marshal(c)
